@@ -215,6 +215,70 @@ func runC06(env *core.Env) {
 			}
 		}
 	}
+	// criteria whose outcome differs from item to item (true, false, empty, several values), in every order: each item is judged on its own
+	{
+		type itemKind struct {
+			name string
+			el   *dtpb.HumanName
+		}
+		mkn := func(fam string, given ...string) *dtpb.HumanName {
+			h := &dtpb.HumanName{Family: &dtpb.String{Value: fam}}
+			for _, g := range given {
+				h.Given = append(h.Given, &dtpb.String{Value: g})
+			}
+			return h
+		}
+		kinds := []itemKind{{"T", mkn("t", "yes")}, {"E", mkn("e")}, {"M", mkn("m", "a", "b")}, {"F", mkn("f", "no")}}
+		// criterion per item: given = 'yes' is true / empty (no given) / error-or-false for several / false
+		for a := range kinds {
+			for b := range kinds {
+				for c := range kinds {
+					n++
+					if !env.Mine(n) {
+						continue
+					}
+					coll := system.Collection{kinds[a].el, kinds[b].el, kinds[c].el}
+					seq := kinds[a].name + kinds[b].name + kinds[c].name
+					eo := []fhirpath.EvaluateOption{evalopts.EnvVariable("ns", coll)}
+					env.Cover("criteria-outcome-sequence")
+					hasM := strings.Contains(seq, "M")
+					// all(given.first() = 'yes'): true iff every item is T (an empty outcome is not true)
+					wantAll := "F"
+					if seq == "TTT" {
+						wantAll = "T"
+					}
+					if got := obs3(fx.Eval(env, "%ns.all(given.first() = 'yes')", nil, nil, eo)); got != wantAll {
+						env.Violatef("C06/criteria-sequence/all", "items %s (T: given='yes', E: no given, M: two givens, F: given='no'): `%%ns.all(given.first() = 'yes')` = %s, expected %s", seq, got, wantAll)
+					}
+					// where(given = 'yes').count(): the number of T items; an error if an item has several givens (not a singleton comparison)... only when evaluated
+					cnt := strings.Count(seq, "T")
+					r := fx.Eval(env, "%ns.where(given.first() = 'yes').count()", nil, nil, eo)
+					if it, ok := r.Single(); !ok || it.T != fmt.Sprint(cnt) {
+						env.Violatef("C06/criteria-sequence/where", "items %s: `%%ns.where(given.first() = 'yes').count()` = %s, expected %d", seq, trunc(r.Short(), 60), cnt)
+					}
+					// a bare element criterion: an item with several values is an error whatever the other items hold
+					rb := fx.Eval(env, "%ns.where(given).count()", nil, nil, eo)
+					if hasM {
+						if !rb.IsError() {
+							env.Violatef("C06/criteria-sequence/multi-valued-criterion-accepted", "items %s: `%%ns.where(given).count()` = %s although one item's criterion has two values", seq, trunc(rb.Short(), 60))
+						}
+					} else if it, ok := rb.Single(); !ok || it.T != fmt.Sprint(strings.Count(seq, "T")+strings.Count(seq, "F")) {
+						env.Violatef("C06/criteria-sequence/where-element", "items %s: `%%ns.where(given).count()` = %s", seq, trunc(rb.Short(), 60))
+					}
+					ra := obs3(fx.Eval(env, "%ns.all(given)", nil, nil, eo))
+					wantA := "F"
+					if hasM {
+						wantA = "ERR|F" // (all may stop at the first item that is not true)
+					} else if !strings.Contains(seq, "E") {
+						wantA = "T"
+					}
+					if !strings.Contains("|"+wantA+"|", "|"+ra+"|") {
+						env.Violatef("C06/criteria-sequence/all-element", "items %s: `%%ns.all(given)` = %s, expected %s", seq, ra, wantA)
+					}
+				}
+			}
+		}
+	}
 	ops := []string{"and", "or", "xor", "implies"}
 	for _, op1 := range ops {
 		for _, op2 := range ops {
